@@ -13,6 +13,10 @@ def main(argv):
     prop, tier, seed, shard, nshards, budget, outfile = argv[:7]
     replay = argv[7] if len(argv) > 7 else None
     logging.disable(logging.CRITICAL)
+    if int(shard) % 5 == 4 and os.environ.get('VERIF_DEBUG_SHARDS', '1') != '0':
+        # every fifth shard runs with the root logger at DEBUG (what `pybufrkit --debug` sets; records themselves stay disabled):
+        # the library then keeps decoded values in its audited list type - nothing a property states depends on the logging level
+        logging.root.setLevel(logging.DEBUG)
     from mon.ctx import Ctx
     ctx = Ctx(prop, tier, int(seed), int(shard), int(nshards), float(budget))
     mod = importlib.import_module('mon.checks.' + prop.lower())
@@ -38,6 +42,8 @@ def main(argv):
         ctx.notes.append('attach failed: %r' % (e,))
         ctx.counters['attach_failed'] = 1
     ctx.attached = attached
+    if logging.root.level == logging.DEBUG:
+        ctx.counters['shards_with_root_logger_at_debug'] = 1
     try:
         if replay:
             with open(replay) as f:
